@@ -10,6 +10,7 @@ container's validity are logged and TLC checks them against the model.
 """
 import datetime as dt, io, json, math, os, struct
 
+import subprocess, io
 from vf import check, common, gen, tlc
 from vf.common import MachineryError
 
@@ -286,6 +287,81 @@ def run(tier):
             except Exception as e:
                 case["outcome"], case["exc"] = "different", "read: " + type(e).__name__ + ":" + str(e)[:60]
         return case
+
+    # a record that is a GROUP of records (its fields are the members' fields): refused, or written with all its values
+    def grouped_case(layout):
+        from flow.record import GroupedRecord
+
+        uniq[0] += 1
+        p = os.path.join(tmp, "o.avro")
+        if os.path.exists(p):
+            os.remove(p)
+        Da = RecordDescriptor("av/ga%d" % (uniq[0] % 7), [("varint", "n"), ("string", "f")])
+        Db = RecordDescriptor("av/gb%d" % (uniq[0] % 7), [("varint", "m"), ("string", "g")])
+        grp = GroupedRecord("av/grp", [Da(99, "left", _generated=gen.GEN), Db(7, "right", _generated=gen.GEN)])
+        case = {"T": "string", "c": "fits", "probe": "grouped", "layout": layout, "outcome": "?", "probe_in_file": False, "good_records_intact": True, "std_reader_opens": True,
+                "descriptor_carried": True, "exc": "none", "value": "GroupedRecord(n=99, f='left', m=7, g='right')"}
+        w = AvroWriter(p)
+        refused = False
+        if layout == "last":
+            w.write(Da(1, "a", _generated=gen.GEN))
+        try:
+            w.write(grp)
+        except Exception as e:
+            refused, case["exc"] = True, type(e).__name__ + ":" + str(e)[:60]
+        try:
+            w.flush()
+            w.close()
+        except Exception as e:
+            refused, case["exc"] = True, "close: " + type(e).__name__ + ":" + str(e)[:60]
+        std = []
+        try:
+            if os.path.exists(p) and os.path.getsize(p):
+                with open(p, "rb") as fh:
+                    std = list(fastavro.reader(fh))
+        except Exception:
+            case["std_reader_opens"] = False
+        mine = [r for r in std if r.get("n") == 99 or r.get("m") == 7 or (r.get("n") is None and layout == "alone")]
+        case["probe_in_file"] = bool(mine) or len(std) > (1 if layout == "last" else 0)
+        case["good_records_intact"] = layout != "last" or (bool(std) and std[0].get("n") == 1 and std[0].get("f") == "a")
+        if refused:
+            case["outcome"] = "refused"
+        else:
+            want = {"n": 99, "f": "left", "m": 7, "g": "right"}
+            rows = std[1:] if layout == "last" else std
+            case["outcome"] = "same" if len(rows) == 1 and all(rows[0].get(k) == v for k, v in want.items()) else "different"
+        return case
+
+    for layout in ("alone", "last"):
+        cases.append(grouped_case(layout))
+        ctx.case(("grouped", layout))
+
+    # the container written to STANDARD OUTPUT by a process of its own (the interpreter's shutdown is part of the history):
+    # exactly one container header, readable to its end by a standard reader, every record in it
+    for mode in ("with", "close", "closeclose", "flushclose"):
+        child = (
+            "import sys\nsys.path.insert(0, sys.argv[1])\nfrom flow.record import RecordDescriptor, RecordWriter\n"
+            "D = RecordDescriptor('av/out', [('string', 's'), ('varint', 'n')])\nmode = sys.argv[2]\n"
+            "w = RecordWriter('avro://-')\n"
+            "if mode == 'with':\n    with w:\n        for i in range(10): w.write(D('r%d' % i, i))\n"
+            "else:\n    for i in range(10): w.write(D('r%d' % i, i))\n"
+            "    if mode == 'flushclose': w.flush()\n    w.close()\n    if mode == 'closeclose': w.close()\n")
+        pr = subprocess.run(["/venv/bin/python", "-c", child, os.path.realpath(common.REPO), mode], stdout=subprocess.PIPE, stderr=subprocess.PIPE, timeout=120)
+        case = {"T": "string", "c": "fits", "probe": "stdout", "layout": mode, "outcome": "?", "probe_in_file": True, "good_records_intact": True, "std_reader_opens": True,
+                "descriptor_carried": True, "exc": "none" if pr.returncode == 0 else "exit %d: %s" % (pr.returncode, pr.stderr.decode("utf-8", "replace")[-80:]), "value": "10 records to avro://-"}
+        data = pr.stdout
+        got = []
+        try:
+            bio = io.BytesIO(data)
+            got = [(r["s"], r["n"]) for r in fastavro.reader(bio)]
+            case["std_reader_opens"] = bio.read() == b"" and data.count(b"Obj\x01") == 1
+        except Exception as e:
+            case["std_reader_opens"] = False
+            case["exc"] = "standard reader: " + type(e).__name__ + ":" + str(e)[:60]
+        case["good_records_intact"] = got == [("r%d" % i, i) for i in range(10)]
+        case["outcome"] = "same" if case["good_records_intact"] and pr.returncode == 0 else "different"
+        cases.append(case)
+        ctx.case(("stdout", mode))
 
     # the same timestamps exported by processes that live in other time zones
     for tzname in ("Asia/Kolkata", "America/Los_Angeles"):
